@@ -4,6 +4,9 @@ import (
 	"flag"
 	"fmt"
 	"os"
+	"path/filepath"
+	"regexp"
+	"sort"
 	"strings"
 
 	"github.com/Vedant9500/WTF/internal/database"
@@ -27,6 +30,7 @@ type nlpEv struct {
 	Enh    []int  `json:"enh"`    // GetEnhancedKeywords()
 	KWSyn  []int  `json:"kwsyn"`  // 1 where the keyword is the synonym the analysis inserts after the preceding keyword
 	Same   bool   `json:"same"`   // analysing the text again (same and fresh processor) gives the identical analysis
+	OnSame bool   `json:"onsame"` // the NLP search on a freshly loaded copy of the database (which has analysed nothing yet) answers identically
 	Panic  bool   `json:"panic"`
 }
 
@@ -78,6 +82,8 @@ func engineNLP(args []string) int {
 		"fetch", "edit", "without", "opening", "look"}
 	stops := []string{"the", "a", "to", "in", "of", "how", "with", "my", "for", "and", "is", "it", "on"}
 	unknown := []string{"zzqfoo", "xylo", "qwrt", "blorp", "x", "7", "ünï", "中文"}
+	// multi-word phrases the analysis itself looks for: harvested from the string literals of the NLP package
+	phrases := nlpPhrases()
 	p := nlp.NewQueryProcessor()
 	tr := 0
 	for i := 0; i < *n; i++ {
@@ -102,6 +108,8 @@ func engineNLP(args []string) int {
 		var qs []string
 		for k := 0; k < ln; k++ {
 			switch x := r.Intn(10); {
+			case x < 1 && len(phrases) > 0:
+				qs = append(qs, phrases[r.Intn(len(phrases))])
 			case x < 4:
 				qs = append(qs, english[r.Intn(len(english))])
 			case x < 7 && len(cw) > 0:
@@ -135,6 +143,14 @@ func engineNLP(args []string) int {
 			onRes := c.db.SearchUniversal(q, o)
 			ev.On = docsOf(c, onRes)
 			ev.OnCmp = cmpSeq(toHits(onRes))
+			ev.OnSame = true
+			if c.file != "" && (corpus != "shipped" || i%12 == 2) {
+				if db2, err := database.LoadDatabase(c.file); err == nil {
+					c2 := wrapCorpus(c.name, db2, c.cmds, c.file)
+					in := newInterner()
+					ev.OnSame = in.answerID(c, toHits(onRes)) == in.answerID(c2, toHits(db2.SearchUniversal(q, o)))
+				}
+			}
 			first := toks
 			if len(first) > 4 {
 				first = first[:4]
@@ -176,4 +192,30 @@ func engineNLP(args []string) int {
 	w.close()
 	fmt.Printf("{\"queries\": %d}\n", tr)
 	return 0
+}
+
+var rePhrase = regexp.MustCompile("\"([a-z]+(?: [a-z]+){1,3})\"")
+
+// nlpPhrases: lower-case multi-word string literals of internal/nlp (non-test sources)
+func nlpPhrases() []string {
+	seen := map[string]bool{}
+	var out []string
+	files, _ := filepath.Glob(filepath.Join(repoPath(), "internal", "nlp", "*.go"))
+	sort.Strings(files)
+	for _, f := range files {
+		if strings.HasSuffix(f, "_test.go") {
+			continue
+		}
+		b, err := os.ReadFile(f)
+		if err != nil {
+			continue
+		}
+		for _, m := range rePhrase.FindAllStringSubmatch(string(b), -1) {
+			if !seen[m[1]] && len(m[1]) < 40 {
+				seen[m[1]] = true
+				out = append(out, m[1])
+			}
+		}
+	}
+	return out
 }
